@@ -300,6 +300,13 @@ class _State:
             self.block(st.finalbody)
             return
         if isinstance(st, ast.Assign):
+            # parallel assignment `a, b = x, y`: component by component
+            if isinstance(st.value, (ast.Tuple, ast.List)) and all(isinstance(t, (ast.Tuple, ast.List)) and len(t.elts) == len(st.value.elts) and not any(isinstance(e, ast.Starred) for e in list(t.elts) + list(st.value.elts)) for t in st.targets):
+                vals = [self.ev(e) for e in st.value.elts]
+                for t in st.targets:
+                    for te, ve in zip(t.elts, vals):
+                        self.assign(te, ve, st)
+                return
             val = self.ev(st.value)
             for t in st.targets:
                 self.assign(t, val, st)
